@@ -10,28 +10,12 @@ namespace Driver
 def asVal (j : Json) : R Val := do
   pure { y := ← asRat (← field j "y"), f := ← asRat (← field j "f"), sd := ← asRat (← field j "sd"), newRow := ← asBool (← field j "newRow") }
 
-/-- `full.replay`: replay a traced run (any noise mode) through `Full.step`. -/
-def cmdFullReplay (j : Json) : R Json := do
-  let ej ← field j "env"
-  let tbl ← asOpt (asList (fun e => do
-      let p ← asPt (← field e "p")
-      let v ← asBool (← field e "v")
-      pure (p, v))) (fieldD j "cons" Json.null)
-  let pe : Pipe.Env := { lb := ← asExts (← field ej "lb"), ub := ← asExts (← field ej "ub"), origLo := ← asExts (← field ej "origLo"),
-                         origHi := ← asExts (← field ej "origHi"), tolMesh := ← asRat (← field ej "tol"),
-                         cons := tbl.map consTable, ginv := fun u => u }
-  let o ← parseOpts (← field j "opts")
-  let e : Env := { pipe := pe, o := o, tolFun := ← asRat (← field j "tolFun") }
-  let ij ← field j "init"
-  let nj ← field ij "ns"
-  let u0 ← asPt (← field nj "u")
-  let pairs0 ← asList (fun p => do pure (← asPt (← field p "u"), ← asRat (← field p "y"))) (← field ij "pairs")
-  let mut s : St := { pairs := pairs0,
-                      ns := { u := u0, uBest := u0, yval := ← asRat (← field nj "yval"), fval := ← asRat (← field nj "fval"),
-                              fsd := ← asRat (← field nj "fsd"), hist := [] },
-                      ctl := Ctl.init o (← asNat (← field ij "fc")) (← asNat (← field ij "nRec")) (← asInt (← field ij "msi")) }
+/-- the loop of `full.replay` / `whole.replay`: replay the per-iteration oracles of a traced run through `Full.step` from `s0` -/
+def fullLoop (pe : Pipe.Env) (e : Env) (s0 : St) (orcs : List Json) : R (List Json × St) := do
+  let o := e.o
+  let mut s : St := s0
   let mut res : List Json := []
-  for qj in ← asArr (← field j "orcs") do
+  for qj in orcs do
     if s.ctl.c.finished then break
     let h ← asRat (← field qj "h")
     let searchU ← asPts (← field qj "searchU")
@@ -61,6 +45,32 @@ def cmdFullReplay (j : Json) : R Json := do
       ("searchWouldEvaluate", Json.bool (Ctl.doSearch o s.ctl.c && !outS.isEmpty)),
       ("zs", jList jRat (outOf e s q).zs), ("it", jNat (iterOf e s q).it), ("histLen", jNat s'.ns.hist.length)]]
     s := s'
+  pure (res, s)
+
+def parsePipeEnv (j : Json) : R Pipe.Env := do
+  let ej ← field j "env"
+  let tbl ← asOpt (asList (fun e => do
+      let p ← asPt (← field e "p")
+      let v ← asBool (← field e "v")
+      pure (p, v))) (fieldD j "cons" Json.null)
+  pure { lb := ← asExts (← field ej "lb"), ub := ← asExts (← field ej "ub"), origLo := ← asExts (← field ej "origLo"),
+         origHi := ← asExts (← field ej "origHi"), tolMesh := ← asRat (← field ej "tol"),
+         cons := tbl.map consTable, ginv := fun u => u }
+
+/-- `full.replay`: replay a traced run (any noise mode) through `Full.step`. -/
+def cmdFullReplay (j : Json) : R Json := do
+  let pe ← parsePipeEnv j
+  let o ← parseOpts (← field j "opts")
+  let e : Env := { pipe := pe, o := o, tolFun := ← asRat (← field j "tolFun") }
+  let ij ← field j "init"
+  let nj ← field ij "ns"
+  let u0 ← asPt (← field nj "u")
+  let pairs0 ← asList (fun p => do pure (← asPt (← field p "u"), ← asRat (← field p "y"))) (← field ij "pairs")
+  let s0 : St := { pairs := pairs0,
+                   ns := { u := u0, uBest := u0, yval := ← asRat (← field nj "yval"), fval := ← asRat (← field nj "fval"),
+                           fsd := ← asRat (← field nj "fsd"), hist := [] },
+                   ctl := Ctl.init o (← asNat (← field ij "fc")) (← asNat (← field ij "nRec")) (← asInt (← field ij "msi")) }
+  let (res, _) ← fullLoop pe e s0 (← asArr (← field j "orcs"))
   pure <| Json.mkObj [("states", Json.arr res.toArray)]
 
 end Driver
